@@ -139,7 +139,7 @@ func main() {
 	for _, u := range unused {
 		corpus = append(corpus, u.c)
 	}
-	nGen := f.N(50000, 3000000)
+	nGen := f.N(30000, 3000000)
 	if f.Tier == "thorough" {
 		bigDiv = 12
 	}
